@@ -99,12 +99,19 @@ def _rexpr(prog, fn, e, inners):
         if e.get("form") == "attrchain":
             # the reference sits in the argument list of a call inside an attribute chain
             return "int(str(%s(x - 1)).strip())" % _ref(prog, mod, e["f"])
+        if e.get("form") == "clone":
+            # the callee is a modifier clone (force_local()) of the referenced function; verif_rt.fl is the
+            # identity for plain functions, so the un-memoized reference runs the same text
+            return "verif_rt.fl(%s)(x - 1)" % _ref(prog, mod, e["f"])
         return "%s(x - 1)" % _ref(prog, mod, e["f"])
     if t == "hidden":
         d = find(prog, e["f"])
         if e["via"] == "globals" and d["mod"] == mod:
             return "globals()[%r](x - 1)" % e["f"]
-        return "getattr(sys.modules[%r], %r)(x - 1)" % ("%s.%s" % (prog["pkg"], d["mod"]), e["f"])
+        look = "getattr(sys.modules[%r], %r)" % ("%s.%s" % (prog["pkg"], d["mod"]), e["f"])
+        if e["via"] == "clone":
+            return "verif_rt.fl(%s)(x - 1)" % look
+        return "%s(x - 1)" % look
     raise ValueError(t)
 
 
@@ -226,11 +233,20 @@ def bump_versions(prog, touched, tag):
 # ------------------------------------------------------------------------------------------
 
 EDIT_KINDS = ["lit", "nested", "pdef", "kwdef", "setmember", "tupmember", "var", "varmut", "retarget",
-              "hide", "unhide", "version", "addglob", "follow"]
+              "hide", "unhide", "version", "addglob", "follow", "hidtarget"]
 
 
 def _sites(prog, kind):
     out = []
+    if kind == "hidtarget":
+        # a literal inside a function that some other function reaches through a hidden dynamic call
+        for d in prog["defs"]:
+            if d["k"] == "fn":
+                for e in exprs_of(d):
+                    if e["e"] == "hidden":
+                        t = resolve_fn(prog, e["f"])
+                        out += [(t, le) for le in exprs_of(t) if le["e"] == "lit"]
+        return out
     for d in prog["defs"]:
         if d["k"] == "fn":
             if kind == "pdef" and d.get("pdef") is not None:
@@ -292,7 +308,7 @@ def apply_edit(prog, edit, tag):
     delta = edit.get("delta", 1) or 1
     kind = edit["kind"]
     stmt = None
-    if kind == "lit":
+    if kind in ("lit", "hidtarget"):
         e["v"] = e["v"] + delta
     elif kind == "nested":
         if e["e"] == "inner" and edit.get("alt"):
@@ -363,7 +379,7 @@ def apply_edit(prog, edit, tag):
 # ------------------------------------------------------------------------------------------
 
 def program_strategy(max_fns=6, two_modules=True, allow_hidden=True, allow_explicit=True, allow_cluster=True,
-                     str_sets=True, allow_hidden_plain=False, allow_alias=True):
+                     str_sets=True, allow_hidden_plain=False, allow_alias=True, explicit_f0=False):
     from hypothesis import strategies as st
 
     small = st.integers(0, 9)
@@ -429,7 +445,7 @@ def program_strategy(max_fns=6, two_modules=True, allow_hidden=True, allow_expli
             has_kw = draw(st.integers(0, 3)) == 0
             d = {"k": "fn", "mod": fmods[n], "name": n, "memento": memento, "version": None, "cluster": None,
                  "pdef": draw(small) if has_k else None, "kwdef": draw(small) if has_kw else None}
-            if memento and allow_explicit and n != "f0" and draw(st.integers(0, 5)) == 0:
+            if memento and allow_explicit and (n != "f0" or explicit_f0) and draw(st.integers(0, 4)) == 0:
                 d["version"] = "v"
             if memento and allow_cluster and draw(st.integers(0, 3)) == 0:
                 d["cluster"] = "c"
@@ -440,12 +456,15 @@ def program_strategy(max_fns=6, two_modules=True, allow_hidden=True, allow_expli
                 # hidden calls only to memento functions: a dynamically dispatched *plain* helper can be neither
                 # detected nor refused by the library (known finding hidden-plain-callee)
                 tgt_memento = fmem[tgt[:-2] if tgt.endswith("_r") else tgt]
-                if allow_hidden and (tgt_memento or allow_hidden_plain) and draw(st.integers(0, 5)) == 0:
-                    call = {"e": "hidden", "f": tgt, "via": draw(st.sampled_from(["globals", "sysmod"]))}
+                if allow_hidden and (tgt_memento or allow_hidden_plain) and draw(st.integers(0, 4)) == 0:
+                    call = {"e": "hidden", "f": tgt, "via": draw(st.sampled_from(["globals", "sysmod", "sysmod", "clone"]))}
                 else:
                     call = {"e": "call", "f": tgt}
-                    if draw(st.integers(0, 5)) == 0:
+                    form = draw(st.integers(0, 7))
+                    if form == 0:
                         call["form"] = "attrchain"
+                    elif form == 1:
+                        call["form"] = "clone"
                 body = {"e": "add", "a": body, "b": call}
             d["body"] = body
             defs.append(d)
@@ -482,6 +501,14 @@ def features(prog):
                 f.add(e["e"])
             if e["e"] == "inset" and any(isinstance(v, str) for v in e["s"]):
                 f.add("str-set")
+            if e["e"] == "hidden":
+                t = resolve_fn(prog, e["f"])
+                if t["memento"] and t.get("version") is not None:
+                    f.add("hidden-to-explicit")
+                if e.get("via") == "clone":
+                    f.add("hidden-via-clone")
+            if e["e"] == "call" and e.get("form") == "clone":
+                f.add("call-via-clone")
     if len(prog["modules"]) > 1:
         f.add("two-modules")
     if any(d["k"] in ("alias", "wrapper") for d in prog["defs"]):
